@@ -1,6 +1,9 @@
 use crate::sync::AtomicOption;
 use std::sync::Arc;
+#[cfg(not(may_verif))]
 use std::thread;
+#[cfg(may_verif)]
+use crate::verif::thread;
 use std::time::Duration;
 
 use crate::coroutine_impl::{co_cancel_data, is_coroutine, CoroutineImpl, EventSource};
